@@ -279,7 +279,7 @@ func (m *Machine) stub(fn *ssa.Function, args []Value) (Value, bool) {
 		}
 		return Tuple{Iface{typ: results.At(0).Type(), val: &StubVerifier{alg: alg, key: m.cellsOf(args[0])}}, Iface{}}, true
 	case name == "fmt.Sprintf":
-		return m.strConst("<sprintf>"), true
+		return m.sprintfStub(args), true
 	case name == "bytes.Equal":
 		a, b := args[0].(Slice), args[1].(Slice)
 		if a.len != b.len {
@@ -722,4 +722,77 @@ func (m *Machine) syncStub(name string, fn *ssa.Function, args []Value) (Value, 
 		}
 	}
 	return nil, false
+}
+
+// sprintfStub: formatting is not modelled.  With concrete arguments the result is an opaque constant; when an
+// argument is symbolic the result is an uninterpreted function of (format, arguments) -- 16 opaque bytes -- so
+// that data flowing through Sprintf keeps its dependence on the arguments (injective for formats made of %d-style
+// verbs and literal separators, congruent otherwise).
+func (m *Machine) sprintfStub(args []Value) Value {
+	f, _ := m.strOf(args[0]).concrete()
+	var cells []*Term
+	symbolic := false
+	if len(args) > 1 {
+		if va, ok := args[1].(Slice); ok {
+			for i := 0; i < va.len; i++ {
+				e, ok := va.node.elems[va.off+i].(Iface)
+				if !ok {
+					continue
+				}
+				switch v := e.val.(type) {
+				case *Term:
+					w := v.w
+					if w == 0 {
+						w = 1
+					}
+					for b := 0; b < (w+7)/8; b++ {
+						hi := 8*b + 7
+						if hi >= v.w {
+							hi = v.w - 1
+						}
+						if v.w == 0 {
+							cells = append(cells, m.tt.Ite(v, m.c8(1), m.c8(0)))
+							break
+						}
+						cells = append(cells, m.tt.Zext(m.tt.Extract(v, hi, 8*b), 8))
+					}
+					if !v.IsConst() {
+						symbolic = true
+					}
+				case Str:
+					cells = append(cells, m.c8(byte(len(v.cells))))
+					cells = append(cells, v.cells...)
+					if _, ok := v.concrete(); !ok {
+						symbolic = true
+					}
+				case Slice:
+					for j := 0; j < v.len; j++ {
+						if t, ok := v.node.elems[v.off+j].(*Term); ok {
+							cells = append(cells, t)
+							if !t.IsConst() {
+								symbolic = true
+							}
+						}
+					}
+				}
+			}
+		}
+	}
+	if !symbolic {
+		return m.strConst("<sprintf>")
+	}
+	inj := true
+	for i := 0; i < len(f); i++ {
+		if f[i] == '%' {
+			j := i + 1
+			for j < len(f) && (f[j] >= '0' && f[j] <= '9') {
+				j++
+			}
+			if j >= len(f) || f[j] != 'd' {
+				inj = false
+			}
+			i = j
+		}
+	}
+	return Str{m.idealFn("sprintf|"+f, cells, 16, inj)}
 }
